@@ -34,13 +34,16 @@ LIB = [
     (('rule', 'Tcap2', ['p', 'q'], ('call', 'Tpair', [('seq', [('ref', 'p'), ('opt', ('ref', 'q'))])], [])), ['p', 'p']),
     (('rule', 'Tcap3', ['p', 'x'], ('call', 'Tpair', [('call', 'Tkw', [('ref', 'p'), ('ref', 'x')], [])], [])), ['p', 'v']),
     (('rule', 'Tshadow', ['W'], ('call', 'Tpair', [('left', ('ref', 'W'), ('opt', ('lit', 'b')))], [])), ['p']),
+    # uses its parser parameter on one path only: an argument is parsed (and ITS arguments are evaluated)
+    # where and when the body gets there
+    (('rule', 'Tguard', ['v', 'p'], ('choice', [('right', ('where', ('py', 'v'), ('py', 'bool')), ('ref', 'p')), ('py', '"skipped"')])), ['v', 'p']),
     (('class', 'CP', ['p', 'n'], [('field', 'first', ('ref', 'p')), ('field', 'rest', ('rep', ('lit', 'b'), None, 'n'))]), ['p', 'i']),
     (('class', 'CN', ['n'], [('field', 'items', ('rep', ('lit', 'a'), 'n', 'n')), ('field', 'n2', ('py', 'n * 2'))]), ['i']),
     (('class', 'CV', ['x'], [('field', 'w', ('ref', 'W')), ('requires', None, ('py', 'w != x')), ('field', 'tag', ('py', 'x'))]), ['s']),
 ]
 LIB_NULL = {'Tsame': False, 'Tlen': False, 'Tcount': True, 'Tpair': True, 'Tval': True, 'Tsep': True,
             'Tkw': True, 'Trec': True, 'Tpass': True, 'Topt': True, 'CP': True, 'CV': False, 'Tcap2': True,
-            'Tcap3': True, 'CN': True, 'Tshadow': True}
+            'Tcap3': True, 'CN': True, 'Tshadow': True, 'Tguard': True}
 
 NAMES = ['x', 'y', 'z', 'n', 'm', 'k']
 
@@ -397,8 +400,25 @@ def family_rules(draw, idx, ctx):
                                           ('call', 'Tval', [('ref', x)], []),
                                           ('apply', ('rx', '[ab]'), ('py', 'lambda v: (v, %s)' % x))]))
     name = 'F%d' % idx
-    fam = draw(st.integers(0, 17))
+    fam = draw(st.integers(0, 18))
     x = draw(st.sampled_from(['x', 'y', 'n']))
+    if fam == 18:
+        # a nested call whose value argument can only be evaluated on the path that uses it (it
+        # would raise on the other one): arguments of an argument are evaluated when the argument is used
+        kind = draw(st.integers(0, 3))
+        if kind <= 1:
+            bind, guard, inner = ('opt', ('ref', 'D')), '%s is not None' % x, ('call', 'Tval', [('py', '%s + 1' % x)], [])
+            if kind == 1:
+                inner = ('call', 'CN', [('py', '%s + 1' % x)], [])
+        elif kind == 2:
+            bind, guard, inner = ('opt', ('ref', 'W')), '%s is not None' % x, ('call', 'Tsame', [('py', '%s + "b"' % x)], [])
+        else:
+            bind, guard, inner = ('rep', ('lit', 'a'), 0, 2), 'len(%s) > 0' % x, ('call', 'Tkw', [('lit', 'b')], [('v', ('py', '%s[-1]' % x))])
+        if draw(st.booleans()):
+            call = ('call', 'Tguard', [('py', guard), inner], [])
+        else:
+            call = ('call', 'Tguard', [], [('p', inner), ('v', ('py', guard))])
+        return [('rule', name, None, ('let', x, bind, ('seq', [call, ('opt', ('ref', 'W'))])))]
     if fam == 17:
         # calls at one position that differ ONLY in a keyword argument (value or parser)
         tok = draw(st.sampled_from([('lit', 'a'), ('rx', '[ab]'), ('ref', 'W')]))
